@@ -7,6 +7,8 @@
 #include <bxdecay0/event.h>
 #include <bxdecay0/mdl_event_op.h>
 #include <bxdecay0/std_random.h>
+#include <ref.h>
+#include "stream.hpp"
 #include <cmath>
 #include <cstdlib>
 #include <iostream>
@@ -14,6 +16,16 @@
 #include <random>
 #include <sstream>
 #include <string>
+
+// the documented arrangement: ONE seeded engine; the decay generator draws uniform deviates in [0,1) from it and the decay
+// timer draws its exponential delays from the same engine, in program order. The adaptor is the check's own (the library's
+// wrapper class is the thing under test: were it to stop advancing the caller's engine, a reference built on it would too)
+struct shared_engine_random : bxdecay0::i_random {
+  std::default_random_engine & g;
+  std::uniform_real_distribution<double> ud{0.0, 1.0};
+  explicit shared_engine_random(std::default_random_engine & g_) : g(g_) {}
+  double operator()() override { return ud(g); }
+};
 
 static double num(const char * s) { return std::string(s) == "nan" ? std::nan("") : atof(s); }
 
@@ -29,9 +41,34 @@ int main(int argc, char ** argv)
   bool mdl = atoi(argv[10]) != 0;
   FILE * f = freopen("/dev/null", "w", stderr);
   (void)f;
+  // the acceptance rules of the reference (transpiled GENBBsub, kernel stubbed: only the nuclide/level/mode rules run) decide
+  // before the library is asked: a request they refuse must be refused by the program whatever the library thinks of it
+  if (cat == "dbd" && mode >= 1 && mode <= 20) {
+    d0ref::init_blockdata();
+    d0ref::mon.reset();
+    d0ref::mon.stub_bb = true;
+    d0ref::fstr chn(16);
+    chn.assign(d0ref::FS(nuclide.c_str()));
+    int i2 = 1, lev = level, md = mode, ist = -1, ier = 0;
+    vx::Forced none;
+    vx::Source src;
+    src.forced = &none;
+    d0ref::mon.source = [](size_t pos, void * c) { return ((vx::Source *)c)->at(pos); };
+    d0ref::mon.ctx = &src;
+    try {
+      d0ref::f_genbbsub(i2, chn, lev, md, ist, ier);
+    } catch (std::exception &) {
+      ier = -98;
+    }
+    d0ref::mon.stub_bb = false;
+    if (ier != 0 || (mode == 20 && level != 0)) {
+      std::cout << "REFUSED: reference rules (GENBBsub ier=" << ier << ")" << std::endl;
+      return 3;
+    }
+  }
   try {
     std::default_random_engine generator(seed);
-    bxdecay0::std_random prng(generator);
+    shared_engine_random prng(generator);
     bxdecay0::decay0_generator g;
     g.set_decay_category(cat == "dbd" ? bxdecay0::decay0_generator::DECAY_CATEGORY_DBD : bxdecay0::decay0_generator::DECAY_CATEGORY_BACKGROUND);
     g.set_decay_isotope(nuclide);
